@@ -31,7 +31,8 @@ struct ContingentRule<L: Language> {
 fn build_glob_set(paths: &Vec<String>) -> Result<GlobSet, globset::Error> {
   let mut builder = GlobSetBuilder::new();
   for path in paths {
-    builder.add(Glob::new(path)?);
+    // `./src/*.js` means `src/*.js`; the paths that are tested have no leading `./` either
+    builder.add(Glob::new(path.strip_prefix("./").unwrap_or(path))?);
   }
   builder.build()
 }
@@ -54,8 +55,10 @@ where
 
 impl<L: Language> ContingentRule<L> {
   pub fn matches_path<P: AsRef<Path>>(&self, path: P) -> bool {
+    let path = path.as_ref();
+    let path = path.strip_prefix("./").unwrap_or(path);
     if let Some(ignore_globs) = &self.ignore_globs {
-      if ignore_globs.is_match(&path) {
+      if ignore_globs.is_match(path) {
         return false;
       }
     }
